@@ -1,8 +1,10 @@
 /-
 Driver ops of C03/C18 part JsonBytes (byte layer of the JSON reports):
   c03.json.covdir    <res>* P<path hex>=<coveragePercent token hex>*     path = names joined by '/', root = ""
-  c03.json.coveralls <plus 0|1> <res>* G<source_digest hex>*            (one per file, in order)
-  c03.json.ade       <res>* T<percentage_covered token hex | n>*        (in document order; n = null)
+  c03.json.coveralls <plus 0|1> [D<dm>] <res>* G<source_digest hex>*    (one per file, in order)
+  c03.json.ade       [D<dm>] <res>* T<percentage_covered token hex | n>* (in document order; n = null)
+`D…` (the demangler) see Drv/C03FnOrder; the function tables may come in any order: the models list
+them by name themselves (`Writers.FnOrder.coverallsBytes`, `Writers.FnOrder.adeBytes`).
 Answer: `panic`, or `ok <bytes of the report, hex> <canonical text of the document(s)>`.
 The top-level coveralls parameters are the constants the harness passes to `output_coveralls`.
 -/
@@ -47,15 +49,17 @@ def harnessTop : CvTop :=
 
 def handleJsonCoveralls : List String → String
   | plus :: args =>
-    let (rs, gs) := splitArgs args
-    match parseFlag plus, rs.mapM parseRes, gs.mapM (parseHexTok "G") with
-    | some plus, some rs, some gs =>
-      match coverallsDoc true plus (rs.map (·.1)) with
-      | none => "panic"
-      | some d =>
-        let j := coverallsJson harnessTop gs d
-        s!"ok {toHex (jsonSerialize j)} {showJson j}"
-    | _, _, _ => "bad-op"
+    match Grcov.Drv.FnOrder.takeDm args with
+    | some (dm, args) =>
+      let (rs, gs) := splitArgs args
+      match parseFlag plus, rs.mapM parseRes, gs.mapM (parseHexTok "G") with
+      | some plus, some rs, some gs =>
+        match Grcov.Writers.FnOrder.coveralls dm true plus (rs.map (·.1)),
+              Grcov.Writers.FnOrder.coverallsBytes dm harnessTop gs plus (rs.map (·.1)) with
+        | some d, some b => s!"ok {toHex b} {showJson (coverallsJson harnessTop gs d)}"
+        | _, _ => "panic"
+      | _, _, _ => "bad-op"
+    | none => "bad-op"
   | _ => "bad-op"
 
 def handleJsonCovdir (args : List String) : String :=
@@ -77,14 +81,17 @@ def handleJsonCovdir (args : List String) : String :=
   | _, _ => "bad-op"
 
 def handleJsonAde (args : List String) : String :=
-  let (rs, ts) := splitArgs args
-  let toks : Option (List Json) := ts.mapM fun t =>
-    if t = "Tn" then some .null else (parseHexTok "T" t).map .tok
-  match rs.mapM parseRes, toks with
-  | some rs, some toks =>
-    match CobAde.ade (rs.map fun r => (r.1.rel, r.1.cov)) with
-    | .panic _ => "panic"
-    | .ok recs => s!"ok {toHex (adeBytes toks recs)}"
-  | _, _ => "bad-op"
+  match Grcov.Drv.FnOrder.takeDm args with
+  | some (dm, args) =>
+    let (rs, ts) := splitArgs args
+    let toks : Option (List Json) := ts.mapM fun t =>
+      if t = "Tn" then some .null else (parseHexTok "T" t).map .tok
+    match rs.mapM parseRes, toks with
+    | some rs, some toks =>
+      match Grcov.Writers.FnOrder.adeBytes dm toks (rs.map fun r => (r.1.rel, r.1.cov)) with
+      | .panic _ => "panic"
+      | .ok b => s!"ok {toHex b}"
+    | _, _ => "bad-op"
+  | none => "bad-op"
 
 end Grcov.Drv
